@@ -131,8 +131,56 @@ def chk_hash(L, pat, salt):
     return viols
 
 
+HOPS = [["addr", c, t, a] for a in ("p2pkh", "p2wpkh") for c in (True, False) for t in (False, True)] + \
+       [["sec", True], ["sec", False], ["h160", True], ["h160", False]] + [["wallet", kind] for kind in KINDS]
+HK = 0x00000000000000000000000000000000000000000000000000000000deadbeef
+
+
+class KeyObjectHistories:
+    """requests on ONE PublicKey / node / wallet object in sequence: every answer must be what a fresh object gives.
+    canon = the history (per-object caches cannot be observed)."""
+
+    def ops(self, hist):
+        return HOPS
+
+    def run(self, hist):
+        from btc_hd_wallet.base_wallet import BaseWallet
+        from btc_hd_wallet.bip32 import PrvKeyNode
+        from btc_hd_wallet.keys import PublicKey
+        pt = secp.pub(HK)
+        pk = PublicKey.parse(secp.sec(pt))
+        node = PrvKeyNode(key=HK.to_bytes(32, "big"), chain_code=b"\x07" * 32, testnet=True)
+        w = BaseWallet(master=node, testnet=True)
+        viols, label = [], "init"
+        for n, op in enumerate(hist):
+            last = n == len(hist) - 1
+            if op[0] == "addr":
+                st, a = attempt(pk.address, op[1], op[2], op[3])
+                vs = judge_addr(a, op[3], pt, op[2], op[1], "PublicKey.address(history)") if st == "ok" else [V(P + ":PublicKey.address:history:raised", str(a))]
+            elif op[0] == "sec":
+                st, a = attempt(pk.sec, op[1])
+                vs = [] if st == "ok" and a == secp.sec(pt, op[1]) else [V(P + ":sec:history:wrong-bytes", "sec(%r) after %r" % (op[1], hist[:n]))]
+            elif op[0] == "h160":
+                st, a = attempt(pk.h160, op[1])
+                vs = [] if st == "ok" and a == enc.hash160(secp.sec(pt, op[1])) else [V(P + ":h160:history:wrong-digest", "h160(%r) after %r" % (op[1], hist[:n]))]
+            else:
+                st, a = attempt(getattr(w, op[1] + "_address"), node)
+                vs = judge_addr(a, op[1], pt, True, True, "wallet(history)") if st == "ok" else [V(P + ":wallet:history:raised", str(a))]
+            if last:
+                for v in vs:
+                    v["msg"] = "after %r on the same objects: %s" % (hist[:-1], v["msg"])
+                viols, label = vs, ("violation" if vs else "answer-ok")
+        return {"canon": hist, "viols": viols, "label": label}
+
+
 def execute(case):
-    k = case["k"]
+    k = case.get("k")
+    if "hist" in case:
+        from ..core import isolated
+        r = isolated(KeyObjectHistories().run, case["hist"])
+        for v in r["viols"]:
+            v["case"] = case
+        return R(r["label"], viols=r["viols"])
     if k == "point":
         n, vs = chk_point(case["sec"], int(case["scalar"], 16) if case.get("scalar") else None)
         return R("violation" if vs else "addresses-ok", viols=vs, n=n)
@@ -178,4 +226,6 @@ def run(ctx):
     if ctx.thorough:
         cases += [{"k": "hash", "L": L, "pat": "mix", "salt": (ctx.seed + 1) % 251} for L in range(1025, 4200, 1)]
     ctx.product("hash-all-lengths", cases, execute)
+    from ..bfs import bfs
+    bfs(ctx, "key-object-histories", KeyObjectHistories(), 3 if ctx.thorough else 2)
     return {}
